@@ -227,6 +227,12 @@ theorem boot_flatten_into : LibSrc.boot_flatten_into = "(defn flatten-into [into
 theorem boot_flatten : LibSrc.boot_flatten = "(defn flatten [xs] (flatten-into @[] xs))" := rfl
 /-- boot.janet complement -/
 theorem boot_complement : LibSrc.boot_complement = "(defn complement [f] (fn :complement [x] (not (f x))))" := rfl
+/-- boot.janet keep -/
+theorem boot_keep : LibSrc.boot_keep = "(defn keep [pred ind & inds] (def res @[]) (map-template :keep res pred ind inds) res)" := rfl
+/-- boot.janet mapcat -/
+theorem boot_mapcat : LibSrc.boot_mapcat = "(defn mapcat [f ind & inds] (def res @[]) (map-template :mapcat res f ind inds) res)" := rfl
+/-- boot.janet group-by -/
+theorem boot_group_by : LibSrc.boot_group_by = "(defn group-by [f ind] (def ret @{}) (each x ind (def y (f x)) (if-let [arr (get ret y)] (array/push arr x) (put ret y @[x]))) ret)" := rfl
 
 end JanetModel.Lib.SrcTie
 
